@@ -1,4 +1,8 @@
 pub mod engine;
+
+#[global_allocator]
+static GLOBAL: engine::alloc::Limiter = engine::alloc::Limiter;
+
 pub mod gen;
 pub mod model;
 pub mod props;
